@@ -154,6 +154,9 @@ func extraAlphabet() []Choice {
 		txB("send(k3->k3,5) self", chain.TxSpec{Msg: "send", From: 3, To: 3, Amount: 5}),
 		txB("send(k3->k9,all-fee)", chain.TxSpec{Msg: "send", From: 3, To: 9, Amount: 5*min - 10000}),
 		txB("send(k3->k2,balance+1)", chain.TxSpec{Msg: "send", From: 3, To: 2, Amount: 5*min + 1}),
+		txB("send(k3->pos module account,1000)", chain.TxSpec{Msg: "send_module", From: 3, Key: "pos", Amount: 1000}),
+		txB("send(k3->fee collector,1000)", chain.TxSpec{Msg: "send_module", From: 3, Key: "fee_collector", Amount: 1000}),
+		txB("send(k3->dao,1000)", chain.TxSpec{Msg: "send_module", From: 3, Key: "dao", Amount: 1000}),
 		txB("stake(k3,min)", chain.TxSpec{Msg: "stake", From: 3, Amount: min}),
 		txB("unstake(k1)", chain.TxSpec{Msg: "unstake", From: 1}),
 		txB("dao_transfer(k4->dao?,3)", chain.TxSpec{Msg: "dao_transfer", From: 4, To: 3, Amount: 3}),
@@ -228,6 +231,18 @@ func rewardAlphabet() []Choice {
 		evB("award(k9 fresh,4)", chain.Event{Kind: "award", Who: 9, Amount: 4}),
 		evB("award(k0 validator,8)", chain.Event{Kind: "award", Who: 0, Amount: 8}),
 		multiB("[award(k3,5),send]", chain.Event{Kind: "award", Who: 3, Amount: 5}, txE(chain.TxSpec{Msg: "send", From: 3, To: 2, Amount: 1})),
+		// proposers whose record exists but is no longer staked (forced unstake while still in the set)
+		Choice{Label: "prop=k0 + send", Block: chain.Block{Proposer: 1, Events: []chain.Event{txE(chain.TxSpec{Msg: "send", From: 3, To: 2, Amount: 1})}}},
+		Choice{Label: "evidence(k0) + prop=k0 + send", Block: chain.Block{Proposer: 1, Evidence: []chain.Evidence{{Val: 0, HeightAgo: 1, Age: time.Second}}, Events: []chain.Event{txE(chain.TxSpec{Msg: "send", From: 3, To: 2, Amount: 1})}}},
+		evB("burn(k0,1)", chain.Event{Kind: "burn", Who: 0, Sev: "1"}),
+		Choice{Label: "miss(k0) + prop=k0 + send", Block: chain.Block{Proposer: 1, Missed: []int{0}, Events: []chain.Event{txE(chain.TxSpec{Msg: "send", From: 3, To: 2, Amount: 1})}}},
+		// zero awards among positive ones, in every position of the address order
+		multiB("[award(k2,0),award(k3,25),award(k9,7)]", chain.Event{Kind: "award", Who: 2, Amount: 0}, chain.Event{Kind: "award", Who: 3, Amount: 25}, chain.Event{Kind: "award", Who: 9, Amount: 7}),
+		multiB("[award(k2,5),award(k3,0),award(k9,7)]", chain.Event{Kind: "award", Who: 2, Amount: 5}, chain.Event{Kind: "award", Who: 3, Amount: 0}, chain.Event{Kind: "award", Who: 9, Amount: 7}),
+		multiB("[award(k2,5),award(k3,25),award(k9,0)]", chain.Event{Kind: "award", Who: 2, Amount: 5}, chain.Event{Kind: "award", Who: 3, Amount: 25}, chain.Event{Kind: "award", Who: 9, Amount: 0}),
+		evB("award(k3,0)", chain.Event{Kind: "award", Who: 3, Amount: 0}),
+		txB("send(k3->pos module account,1000)", chain.TxSpec{Msg: "send_module", From: 3, Key: "pos", Amount: 1000}),
+		txB("send(k3->fee collector,1000)", chain.TxSpec{Msg: "send_module", From: 3, Key: "fee_collector", Amount: 1000}),
 	}
 }
 
@@ -371,6 +386,8 @@ func posScenarios(id, tier string) []Scenario {
 			{Name: "3val-equal-max2", Cfg: cfg3equal(), Alphabet: append(stakingAlphabet(), setAlphabet()...), K: k2, D: d2, Tail: 1},
 			// single miss jails: slashes and burns of an already jailed validator within two deviations
 			{Name: "3val-jail-fast", Cfg: cfgJailFast(), Alphabet: append(stakingAlphabet(), jailFastAlphabet()...), K: k2, D: d2, Tail: 1},
+			// starting from a non-initial state: k0 has been force-unstaked (record kept, no stake)
+			{Name: "2val-k0-force-unstaked", Cfg: baseCfg(), Prelude: []chain.Block{{Events: []chain.Event{{Kind: "burn", Who: 0, Sev: "1"}}}, {}}, Alphabet: stakingAlphabet(), K: k2, D: d2, Tail: 1},
 		}
 	case "C05":
 		k, d := kd(2, 4, 3, 4)
@@ -458,7 +475,12 @@ func posScenarios(id, tier string) []Scenario {
 		return scs
 	case "C10":
 		k, d := kd(3, 4, 4, 4)
-		return []Scenario{{Name: "rewards", Cfg: baseCfg(), Alphabet: rewardAlphabet(), K: k, D: d, Tail: 1}}
+		ra := rewardAlphabet()
+		return []Scenario{
+			{Name: "rewards", Cfg: baseCfg(), Alphabet: ra[:18], K: k, D: d, Tail: 1},
+			// + unstaked-but-known proposers, zero awards, transfers to module addresses
+			{Name: "rewards-extended", Cfg: baseCfg(), Alphabet: ra, K: k - 1, D: d, Tail: 1},
+		}
 	}
 	return nil
 }
